@@ -126,6 +126,10 @@ class Runner:
         """step every behaviour through the driver (serially, or over `parallel` processes with
         drivers built by factory(**factory_kw)); returns number of divergent behaviours"""
         results = []
+        import time as _time
+        _t0 = _time.time()
+        self._replay_walls = getattr(self, '_replay_walls', [])
+        self._replay_walls.append([module + ' / ' + str(origin), len(behaviours), _t0])
         if parallel and len(behaviours) >= 2 * parallel and factory is not None:
             import multiprocessing as mp
             chunks = [[] for _ in range(parallel * 4)]
@@ -217,6 +221,11 @@ class Runner:
             'notes': self.notes,
         }
         cov.update(self.extra)
+        walls = getattr(self, '_replay_walls', [])
+        if walls:
+            import time as _time
+            ends = [w[2] for w in walls[1:]] + [_time.time()]
+            cov['replay_stages'] = [{'stage': w[0], 'behaviours': w[1], 'until_next_stage_s': round(e - w[2], 1)} for w, e in zip(walls, ends)]
         ev = {'property_id': self.prop, 'tier': self.tier, 'seed': self.seed, 'level': level,
               'coverage': cov, 'assumptions': self.assumptions,
               'wall_s': round(time.time() - self.t0, 1), 'violations': len(self.violations)}
